@@ -44,9 +44,9 @@ CLAIMED = {
    note=TRUST+"time.Parse(2006-01-02), strings.ToLower/Split semantics are trusted, not modelled.",
    technique="constant-table census (go/ast + go/constant) with checker-side date arithmetic; decision-table extraction over go/ssa", ref="§3 C18"),
  "C16": dict(level="other",
-   text="Threshold clauses decided for all keys: the prime table is compared with a sieve; PrimeNoSmallerThan752's decision table shows false iff some table entry divides the argument; for each of the 13 key-quality lints the decision table of Execute (big.Int BitLen/Mod/Cmp/NewInt as atoms) is evaluated with the checker's own big-integer arithmetic on both sides of every threshold (bit lengths 1023/1024/1025, 2047/2048/2049, 3071/3072/3073, non-multiples of 8, odd/even, small factors, exponents 1,2,3,4,65536,65537,…) and must agree in operator, constant, polarity and status with the stated predicate; the exponent upper bound 2^256 and the Fermat round count (i = 0..Rounds-1) are checked structurally. The Fermat clause itself (close primes are found; reported factors multiply back) is a numerical loop and is NOT decided.",
-   note=TRUST+"math/big is trusted. The Fermat search's arithmetic is outside the claim (seeded change C16-B, a wrong quadratic-residue pre-filter, is not detected).",
-   technique="constant-table census with checker-side sieve; decision-table extraction over go/ssa evaluated at boundary points with big-integer arithmetic", ref="§3 C16"),
+   text="Threshold clauses decided for all keys: the prime table is compared with a sieve; PrimeNoSmallerThan752's decision table shows false iff some table entry divides the argument; for each of the 13 key-quality lints the decision table of Execute (big.Int BitLen/Mod/Cmp/NewInt as atoms) is evaluated with the checker's own big-integer arithmetic on both sides of every threshold (bit lengths 1023/1024/1025, 2047/2048/2049, 3071/3072/3073, non-multiples of 8, odd/even, small factors, exponents 1,2,3,4,65536,65537,…) and must agree in operator, constant, polarity and status with the stated predicate; the exponent upper bound 2^256 is checked structurally. Fermat clause, decided as a schema match: the paths of checkPrimeFactorsTooClose (round loop unrolled three times) are interpreted over the polynomial ring Z[n, ⌊√n⌋, √-atoms] (each big.Int object holds a normalised polynomial; Sqrt/Add/Sub/Mul/Set/Cmp modelled, any other big.Int mutation or any other branch is 'undecided') and must be Fermat's method: a starts at ⌊√n⌋+1 with b2 = a²−n, the only branch of a round is b2 == (⌊√b2⌋)², the step is a←a+1, b2←a²−n as a polynomial identity in the free indeterminate ⌊√n⌋ (hence for every round), a hit returns a non-nil error whose two reported numbers multiply to n under r² = b2, nil is returned only when i < rounds fails with i = 0,1,…; Execute passes the key's N and the configured Rounds and reports Error iff an error came back. What this does not decide: math/big's own arithmetic, and the number-theoretic fact (not code) that Fermat's method reaches (p+q)/2 within the stated rounds.",
+   note=TRUST+"math/big is trusted (Sqrt = floor square root, results non-negative). The Fermat schema rule accepts any rearrangement whose polynomial normal forms agree (e.g. the incremental update b2 += 2a+1) and reports anything else as undecided — e.g. a pre-filter that skips rounds, correct or not.",
+   technique="constant-table census with checker-side sieve; decision-table extraction over go/ssa evaluated at boundary points with big-integer arithmetic; abstract interpretation of the Fermat loop's paths in a polynomial term domain compared with the algorithm schema (syntactic equality of normal forms, no solver, nothing executed)", ref="§3 C16, §11.6"),
  "C19": dict(level="other",
    text="Shape of IsIANAReserved / IntersectsIANAReserved decided by decision tables (¬global-unicast shortcut, same table, both containment directions) on all abstract cases; the table's 84 CIDR literals are read from the syntax tree and, with the established model, the checker's own interval arithmetic (Go net library as trusted transcription) decides: every special-purpose block of the statement reserved at its first/last address in 4-byte and mapped form, public addresses not, every supernet of every listed / required / shortcut-only block intersects, single-address networks agree with the address test; decision tables of the three lints. Table and monotonicity clauses are complete for all addresses and prefix lengths because prefixes nest or are disjoint.",
    note=TRUST+"net.IP.IsGlobalUnicast / IPNet.Contains / ParseCIDR semantics are used as the model, not verified. The .arpa lint's string parsing is outside the claim.",
